@@ -64,7 +64,7 @@ for _shift in range(3):
     TEXTS["long-unicode-%d" % _shift] = T_UNICODE.replace("free text — ünïcödé ✓", "free text — ünïcödé ✓\n" + _body)
 
 CHANNELS = ["str-path", "pathlib", "text-file", "text-file-newline-empty", "stringio", "string"]
-STORAGES = [("utf-8-sig", None), ("utf-8", None), ("utf-8", "utf-8"), ("utf-16", "utf-16"), ("utf-16-le", "utf-16-le"),
+STORAGES = [("utf-8-sig", None), ("utf-8-sig", "utf-8"), ("utf-8-sig", "utf-8-sig"), ("utf-8", None), ("utf-8", "utf-8"), ("utf-16", "utf-16"), ("utf-16-le", "utf-16-le"),
             ("utf-16-be", "utf-16-be"), ("latin-1", "latin-1"), ("cp1252", "cp1252")]
 EOLS = ["\n", "\r\n", "\r"]
 
@@ -185,7 +185,7 @@ def alphabet():
 # the two texts of the purity part hold DIFFERENT line shapes under the SAME section names (double dots that belong
 # to the mnemonic vs to the description, period-less and colon-less lines, time values, bracketed and numeric units):
 # anything remembered from parsing one of them must not leak into parsing the other
-_SHAPES_A = ("~Curve\nDEPT.M : depth\nCOND..MS/M : conductivity, dots belong to the mnemonic\nTemp.°C : température\n",
+_SHAPES_A = ("~Curve\nDEPT.M : depth\nCOND..MS/M : conductivity, dots belong to the mnemonic\nTemp.°C : température\nSPARE.X : declared without a data column\n",
              "~Parameter\nBHT.°C 35.5 : bottom hole température\nTIME.hh:mm 13:45 : Time: logged\nRUN : 3\nPRES.1000 psi 12 : numeric unit\nÅÄÖ.å äö : éèêë\n")
 _SHAPES_B = ("~Curve\nDEPT.M : depth\nRES.OHMM : deep.. dots belong to the description\nTEMP.[degC] : température\n",
              "~Parameter\nnote.  no colon here\nWho : a. b. name : x\nDATE. 2020-01-02 14:00:32 : Date: and time\nBHT.°C 35.5 : bottom hole température\n")
